@@ -72,6 +72,4 @@ def np_ndim(x):
 
 
 def _classify_c06(name, case, msg):
-    if (name.startswith("x @ x.T") or name.startswith("tensordot")) and "indices not strictly increasing" in msg and case.get("result_type") == "GCXS":
-        return "F-dot-csr-unsorted"
     return None
